@@ -24,6 +24,8 @@ def coq_op(o):
               "stored": "SStored", "announced": "SAnnounced", "counts": "SCounts", "drain": "SDrain", "sleep": "SSleep"}
     if n in simple:
         return simple[n]
+    if n == "peer_close_stop":
+        return "SCloseStop"
     if n == "peer_headers":
         return "(SHeaders %d)" % o[1]
     if n == "peer_blocks":
@@ -207,6 +209,19 @@ def scenario(rng, kind):
         g.add(r.choice(["peer_close", "peer_reset"]))
         g.add("sleep", r.choice([0, 0, 50, 150, 320, 500, 750]))
         g.stop_tail()
+    elif kind == "stoprestarting":
+        # Stop lands inside the shutdown that precedes the reconnect (deterministically: the harness polls
+        # needsRestart && stopping && connection == nil and calls Stop at that moment)
+        g.add("start")
+        g.handshake()
+        stage = r.range(0, 2)
+        if stage >= 1:
+            g.sync_some(4)
+        if stage >= 2:
+            g.insync()
+            g.traffic()
+        g.add("peer_close_stop", r.range(0, 1))
+        g.ops += [list(x) for x in TAIL]
     elif kind == "reconnecting":
         g.add("start")
         g.handshake()
@@ -262,12 +277,61 @@ def scenario(rng, kind):
 
 KINDS_QUICK = ["connecting", "connecting", "handshake", "handshake", "handshake", "headers", "headers", "midblocks",
                "midblocks", "heldblock", "heldblock", "insync", "insync", "insync", "heldtx", "heldtx", "abort",
-               "afterloss", "afterloss", "afterloss", "reconnecting", "reconnected", "reconnected", "silence"]
+               "afterloss", "afterloss", "afterloss", "reconnecting", "reconnected", "reconnected", "silence",
+               "stoprestarting", "stoprestarting", "stoprestarting"]
 WEIGHTS = [("connecting", 2), ("handshake", 3), ("headers", 3), ("midblocks", 4), ("heldblock", 3), ("insync", 5),
-           ("heldtx", 3), ("abort", 2), ("afterloss", 5), ("reconnecting", 2), ("reconnected", 5), ("silence", 1)]
+           ("heldtx", 3), ("abort", 2), ("afterloss", 5), ("reconnecting", 2), ("reconnected", 5), ("silence", 1), ("stoprestarting", 4)]
+
+
+UOPS = {"ustart": "UStart", "ufill": "UFill", "ureset": "UReset", "ustop": "UStop", "ucounts": "UCounts",
+        "udrain": "UDrain"}
+
+
+def untrusted_suite(tier, rng, replay):
+    """A real UntrustedNode against a peer that never reads and keeps pinging (component "untrusted")."""
+    cases = []
+    if replay:
+        cases.append({"cfg": replay.get("cfg", {}), "ops": replay["ops"], "origin": "replay"})
+    else:
+        d = os.path.join(vlib.VERIF, "corpus", "C19u")
+        if os.path.isdir(d):
+            for f in sorted(os.listdir(d)):
+                if f.endswith(".json"):
+                    j = json.load(open(os.path.join(d, f)))
+                    cases.append({"cfg": j.get("cfg", {}), "ops": j["ops"], "origin": "corpus/C19u/" + f})
+        n = 4 if tier == "quick" else 24
+        for i in range(n):
+            r = rng.fork(19900 + i)
+            ops = [["ustart"]]
+            if r.chance(1, 3):
+                ops.append(["ucounts"])
+            k = i % 4 if tier == "quick" else r.range(0, 3)
+            if k <= 1:
+                ops.append(["ufill"])
+                if k == 1:
+                    ops.append(["ureset"])
+            elif k == 2:
+                ops.append(["ureset"])
+            ops.append(["ustop", 3000])
+            ops.append(["ucounts"])
+            cases.append({"cfg": {}, "ops": ops})
+    for c in cases:
+        c["coq_ops"] = [UOPS[o[0]] for o in c["ops"]]
+    return Suite("untrusted", "untrusted", ["From V.model Require Import Shutdown."],
+                 [{"key": "untrusted", "optype": "uop", "cases": cases, "model": "cmp_run urun",
+                   "monitors": {"c19u": "c19u_monitor"}}])
 
 
 def suites(tier, rng, replay):
+    if replay and replay.get("suite") == "untrusted":
+        return [untrusted_suite(tier, rng, replay)]
+    res = [shutdown_suite(tier, rng, replay)]
+    if not replay:
+        res.append(untrusted_suite(tier, rng, None))
+    return res
+
+
+def shutdown_suite(tier, rng, replay):
     cases = []
     if replay:
         cases.append({"cfg": replay.get("cfg", {}), "ops": replay["ops"], "origin": "replay"})
@@ -288,12 +352,20 @@ def suites(tier, rng, replay):
                 cases.append(scenario(r, r.weighted(WEIGHTS)))
     for c in cases:
         c["coq_ops"] = [coq_op(o) for o in c["ops"]]
-    return [Suite("shutdown", "shutdown", ["From V.model Require Import Shutdown."],
-                  [{"key": "shutdown", "optype": "sop", "cases": cases, "model": "cmp_run srun",
-                    "monitors": {"c19": "c19_monitor"}}])]
+    return Suite("shutdown", "shutdown", ["From V.model Require Import Shutdown."],
+                 [{"key": "shutdown", "optype": "sop", "cases": cases, "model": "cmp_run srun",
+                   "monitors": {"c19": "c19_monitor"}}])
 
 
 def keyfn(rec):
+    if rec.get("suite") == "untrusted":
+        ops = rec.get("ops", [])
+        step = rec.get("step", 0)
+        opn = ops[step][0] if 0 <= step < len(ops) else "?"
+        if rec.get("checker") == "model":
+            return "untrusted:model:%s" % opn
+        shape = "queue-full" if any(o[0] == "ufill" for o in ops[:max(step, 0)]) else "plain"
+        return "untrusted:%s:%s:%s:%s" % (rec.get("checker"), (rec.get("expected") or [0])[0], opn, shape)
     ops = rec.get("ops", [])
     step = rec.get("step", 0)
     opn = ops[step][0] if 0 <= step < len(ops) else "?"
@@ -323,10 +395,10 @@ SPEC = {
         "Go scheduler, TCP and timers are not in the model; fairness hypothesis of stop_terminates: every enabled step of the run loop or of a goroutine eventually happens, and handler callbacks, storage calls, fetcher calls and conn.Close return",
         "hypothesis `prompt` of the safety theorems (D27): a thread counter is never read as zero while a goroutine started for that class has not yet executed its first statement (the increment); needs a goroutine unscheduled for > 100 ms; not reproducible without a scheduler hook, not claimed as a finding (C19_d27_refuted is the model witness)",
         "D26 (processUnconfirmedTxs left its loop on an error while monitorIncoming waited on the full tx channel: Stop never returned) was replayed against the real code and repaired in /repo 99e17c5; the termination theorems are for the repaired consumer (model parameter daf = true) without a hypothesis about it; C19_d26_refuted is the theorem about the old consumer (daf = false); corpus/C19/d26_consumer_abort_full_channel.json is the regression test",
-        "one untrusted node stands for all; application calls other than Stop (SendTx, BroadcastTx, HandleTx) are outside the model; the harness runs with UntrustedCount = 0 (untrusted peers are covered by the proofs only)",
+        "one untrusted node stands for all; application calls other than Stop (SendTx, BroadcastTx, HandleTx) are outside the model; the Node.Run scenarios run with UntrustedCount = 0; the untrusted side is tied separately: a real UntrustedNode (real Run / monitorIncoming / sendOutgoing / Stop) over loopback TCP against a peer that never reads and keeps pinging until the 100-slot outgoing queue is full and the reader waits inside Add (component untrusted); its Run is the same phased protocol in small, so its scenarios are run on the same transition system (MI, RT, SO and the outgoing channel)",
         "bounded time is checked as: Stop returns within 4 s (the phase loops poll every 100 ms; typical 0.4 - 0.7 s); net.Dial to a blackholed address is outside (connect is a step that returns)",
     ],
-    "rule": "scenarios: stop while connecting (peer not listening), during the handshake (before accept / before version / after version), during header sync, in the middle of the block download (also with the HandleHeaders callback of a block held across the stop request), in sync with tx / addr / ping traffic (also with HandleTx or the output fetcher held), right after close / reset of the trusted connection at 0-750 ms, during the reconnect loop, after reconnection at each handshake stage, peer silence with aged time-outs, consumer abort with and without a full channel; each ends with quiet (no callback after Stop returned), stored (fresh repositories loaded from the store vs final in-memory data vs announcements), announced (heights contiguous, none twice); distinct = distinct (cfg, ops)",
+    "rule": "scenarios: stop while connecting (peer not listening), during the handshake (before accept / before version / after version), during header sync, in the middle of the block download (also with the HandleHeaders callback of a block held across the stop request), in sync with tx / addr / ping traffic (also with HandleTx or the output fetcher held), right after close / reset of the trusted connection at 0-750 ms, Stop placed exactly inside the shutdown that precedes the reconnect (flags polled: needsRestart, stopping, connection cleared), during the reconnect loop, after reconnection at each handshake stage, peer silence with aged time-outs, consumer abort with and without a full channel; untrusted node with its outgoing queue full / after a reset by the peer, then Stop; each Node.Run scenario ends with quiet (no callback after Stop returned), stored (fresh repositories loaded from the store vs final in-memory data vs announcements), announced (heights contiguous, none twice); distinct = distinct (cfg, ops)",
 }
 
 if __name__ == "__main__":
